@@ -57,6 +57,9 @@ def run(tier):
     pshort = tlc.run_tlc("MC_PagerProto", cfg="MC_PagerProto_regression_short", workers=1, coverage=False, timeout=300)
     if pshort.violated != "AllDelivered":
         raise core.ToolError("MC_PagerProto_regression_short (the rest of a short write is dropped) did not violate AllDelivered")
+    peintr = tlc.run_tlc("MC_PagerProto", cfg="MC_PagerProto_regression_eintr", workers=1, coverage=False, timeout=300)
+    if peintr.violated != "Quiet":
+        raise core.ToolError("MC_PagerProto_regression_eintr (an interrupted write call is taken for an error) did not violate Quiet")
     # a differ that talks on stderr while it succeeds (GIT_TRACE=1): status and output must be what they are without the talk;
     # a wrapped command that complains a lot (4 000 lines, far more than a pipe holds, on stderr before it writes to stdout): the
     # scenarios in which delta runs a command and the consumer stays are run a second time with such a command
